@@ -329,6 +329,9 @@ type c05SigRef struct {
 func c05SigRefs(s *common.SignedTransaction) []c05SigRef {
 	var refs []c05SigRef
 	for i, m := range s.SignaturesMap {
+		if i >= len(s.Inputs) { // a surplus map belongs to no input
+			break
+		}
 		for _, j := range c05SortedIdx(m) {
 			refs = append(refs, c05SigRef{i, j})
 		}
